@@ -11,7 +11,7 @@ RULE = ("runtime half: every registry function (tools/vlib/registry.py, %d publi
         "equal to and larger than the image) x random memory layout per array argument, executed in isolated worker processes on an "
         "AddressSanitizer build (-O1 -g -fsanitize=address) of the current tree; any ASan report, signal or abort is a violation "
         "with the call as replay. Views are carved out of larger buffers filled with a sentinel so that out-of-view reads also show "
-        "as wrong values in the C08 sweep. Non-trivial: the call returned a value" % len(R.REG))
+        "as wrong values in the C08 sweep. Non-trivial: the call returned a value Every call is also run twice on the ordinary build in fresh workers whose heaps are pre-dirtied and perturbed with different bytes; a result that differs was formed from uninitialised memory." % len(R.REG))
 NOT_PROVED = ["that the compiled code performs only the modelled accesses, allocator behaviour and uninitialised padding are outside "
               "the Coq model: observed with AddressSanitizer on the same generated inputs (support, not proof)",
               "uninitialised reads are not detected by ASan; they are exposed by running every call twice on the ordinary build "
